@@ -314,3 +314,22 @@ func ValueForm(resp packet.Response) packet.Response {
 	}
 	return resp
 }
+
+// SetProtocolID overwrites the exported MBAPHeader.ProtocolID of a TCP request (any type embedding packet.MBAPHeader);
+// reports whether the request has such a field.
+func SetProtocolID(req packet.Request, v uint16) bool {
+	rv := reflect.ValueOf(req)
+	if rv.Kind() != reflect.Ptr || rv.IsNil() {
+		return false
+	}
+	f := rv.Elem().FieldByName("MBAPHeader")
+	if !f.IsValid() {
+		return false
+	}
+	p := f.FieldByName("ProtocolID")
+	if !p.IsValid() || !p.CanSet() {
+		return false
+	}
+	p.SetUint(uint64(v))
+	return true
+}
